@@ -1,6 +1,6 @@
 """C06 - task lifecycle: forward-only status, stable result, precise cancellation."""
 import itertools
-from usim import TaskCancelled, Concurrent
+from usim import TaskCancelled, TaskClosed, Concurrent
 from usim._primitives.task import CancelTask
 from ..run import run_one
 from ..oracles import kernel_health, describe
@@ -29,6 +29,7 @@ PAYLOADS = {
     'raise': [['D', 1], ['RAISE', 'KeyError', 'v']],
     'selfcancel': [['D', 1], ['CANCEL', 'v', 'self'], ['INSTANT'], ['D', 1]],
     'instant': [['INSTANT'], ['INSTANT']],
+    'graceful': [['ONCANCEL', [['D', 2]], [['D', 3]]], ['INSTANT']],
 }
 STARTS = [None, {'after': 1}, {'at': 1}]
 
@@ -55,6 +56,30 @@ def program(payload, start, awaiters, sibling, vfirst):
             'roots': [['root', [['TRY', [['SCOPE', 's', kids]]], ['PROBE', 'now'], ['D', 1], ['TRY', [['AWAIT', 'v']]]]]]}
 
 
+def special_programs():
+    out = []
+    # a child is cancelled before it starts and its scope is torn down in the same turn: the outcome must stay TaskCancelled
+    for extra in ([['RAISE', 'IndexError', 'body']], [['INSTANT'], ['RAISE', 'IndexError', 'body']], []):
+        kids = [['DO', 'v', [['D', 1]]], ['CANCEL', 'v', 'first']] + extra
+        outer = [['DO', 'w1', [['D', 1], ['TRY', [['AWAIT', 'v']]], ['TRY', [['AWAIT', 'v']]], ['PROBE', 'status', 'v']]],
+                 ['DO', 'own', [['TRY', [['SCOPE', 's', kids]]]]]]
+        out.append({'objs': {'l': 'Lock'}, '_nops': 40, '_payload': 'dd', '_start': None, '_special': 'precancel',
+                    'roots': [['root', [['TRY', [['SCOPE', 'm', outer]]], ['PROBE', 'now'], ['D', 1], ['TRY', [['AWAIT', 'v']]]]]]})
+    # a child spawned during the graceful shutdown of its scope and cancelled before its first turn
+    for d in (0, 1):
+        spawner = ([['D', d]] if d else []) + [['DO', 'v', [['D', 1]], {'scope': 's'}], ['CANCEL', 'v', 'first'], ['PROBE', 'status', 'v']]
+        # (also: a sibling that finishes in the same time step just before the spawner does)
+        for sib_first, sd in ((False, 2), (True, 1), (True, 0)):
+            sib = ['DO', 'sib', ([['D', sd]] if sd else []) + [['PROBE', 'now']]]
+            kids2 = [sib, ['DO', 'sp', spawner]] if sib_first else [['DO', 'sp', spawner], sib]
+            out.append({'objs': {'l': 'Lock'}, '_nops': 40, '_payload': 'dd', '_start': None, '_special': 'latecancel',
+                        'roots': [['root', [['TRY', [['SCOPE', 's', kids2]]], ['PROBE', 'now'], ['D', 1], ['TRY', [['AWAIT', 'v']]]]]]})
+        kids = [['DO', 'sp', spawner], ['DO', 'sib', [['D', 2], ['PROBE', 'now']]]]
+        out.append({'objs': {'l': 'Lock'}, '_nops': 40, '_payload': 'dd', '_start': None, '_special': 'latecancel',
+                    'roots': [['root', [['TRY', [['SCOPE', 's', kids]]], ['PROBE', 'now'], ['D', 1], ['TRY', [['AWAIT', 'v']]]]]]})
+    return out
+
+
 def BOUNDS(tier):
     return {'quick': {'awaiters': '1-2', 'deviations': '1 everywhere, 2 on one-awaiter programs'},
             'thorough': {'awaiters': '1-2', 'deviations': 2}}[tier]
@@ -70,7 +95,7 @@ def cases(tier):
                         if tier == 'quick' and len(aw) == 2 and not vfirst and sibling:
                             continue
                         out.append(program(payload, start, aw, sibling, vfirst))
-    return out
+    return out + special_programs()
 
 
 FINAL = ('SUCCESS', 'FAILED', 'CANCELLED')
@@ -107,15 +132,18 @@ def lifecycle(ctx, snaps, program, faults):
             break
     payload_exc = [x for x in ctx.raised if x.args and str(x.args[0]).endswith('@v')]
     for k, d, t_end, t_start, act in results:
-        if isinstance(d, (CancelTask,)) or (k == 'exc' and not isinstance(d, (TaskCancelled, KeyError))):
+        if isinstance(d, (CancelTask,)):
             continue        # the awaiter itself was disturbed (not expected here)
         if final == 'SUCCESS' and k != 'end':
             msgs.append('task succeeded but %s got %s' % (act, describe(d)))
         if final == 'FAILED' and not (k == 'exc' and any(d is x for x in payload_exc)):
             msgs.append('task failed but %s got %r instead of the very exception it raised' % (act, d))
         if final == 'CANCELLED':
-            if not (k == 'exc' and isinstance(d, TaskCancelled) and d.subject is task):
-                msgs.append('task is cancelled but %s got %r' % (act, d))
+            was_cancelled = any(r[0] == 'inject' and r[1] == 'v' and r[4]['status'].name in ('CREATED', 'RUNNING') for r in log)
+            if was_cancelled and not (k == 'exc' and isinstance(d, TaskCancelled) and d.subject is task):
+                msgs.append('task was cancelled but %s got %r instead of TaskCancelled' % (act, d))
+            elif not was_cancelled and not (k == 'exc' and isinstance(d, (TaskCancelled, TaskClosed))):
+                msgs.append('task is closed but %s got %r' % (act, d))
         if done_time is not None and t_end != max(t_start, done_time):
             msgs.append('%s awaited from %r, the task was done at %r, but the await returned at %r' % (act, t_start, done_time, t_end))
     # (3)-(5) cancellation semantics
@@ -142,9 +170,18 @@ def lifecycle(ctx, snaps, program, faults):
             else:
                 if final != 'CANCELLED':
                     msgs.append('cancel at %r of the running task did not cancel it (final status %s)' % (t_c, final))
-                if done_time is not None and done_time != t_c:
+                caught = any(r[0] == 'cancel-caught' and r[1] == 'v' and r[3] == t_c for r in log[idx:])
+                if program['_payload'] == 'graceful' and caught:
+                    # the payload cleans up for 3 after the first cancel; a later cancel that arrives while it is
+                    # suspended in its cleanup is raised there, in that time step
+                    later = [c for c in cancels if c[0] > idx and c[1] < t_c + 3]
+                    want = later[0][1] if later else t_c + 3
+                    if done_time is not None and done_time != want:
+                        msgs.append('graceful payload cancelled at %r (further cancels at %r) is done at %r, expected %r' % (
+                            t_c, [c[1] for c in cancels[1:]], done_time, want))
+                elif done_time is not None and done_time != t_c:
                     msgs.append('cancelled at %r but done only at %r' % (t_c, done_time))
-                if began is not None and ended is not None:
+                if began is not None and ended is not None and not caught:
                     if log[ended][3] != t_c or not isinstance(log[ended][4], CancelTask):
                         msgs.append('the cancellation was not raised inside the task in the same time step: %r' % (log[ended][3:],))
                 if began is not None and ended is None:
@@ -155,6 +192,12 @@ def lifecycle(ctx, snaps, program, faults):
                     msgs.append('cancelled at %r before its start date %r but its code ran' % (t_c, start_date))
         if final == 'CANCELLED':
             for k, d, _, _, act in results:
+                if program['_payload'] == 'graceful':
+                    # the cancel that finally ends the task may be a later one that interrupted the cleanup
+                    if isinstance(d, TaskCancelled) and d.args not in [(c[2]['token'],) for c in cancels]:
+                        msgs.append('%s got TaskCancelled%r, not the token of any requested cancel' % (act, d.args))
+                        break
+                    continue
                 if isinstance(d, TaskCancelled) and d.args != (info['token'],):
                     msgs.append('%s got TaskCancelled%r, expected the token of the first cancel %r' % (act, d.args, info['token']))
                     break
@@ -171,7 +214,7 @@ def lifecycle(ctx, snaps, program, faults):
     else:
         if scope_exc:
             msgs.append('cancelling/finishing a child made its parent scope raise %r' % (scope_exc[0][4],))
-        if any(op[1] == 'sib' for op in program['roots'][0][1][0][1][0][2]):
+        if not program.get('_special') and any(op[1] == 'sib' for op in program['roots'][0][1][0][1][0][2]):
             if not sib or sib[0][4] != 2:
                 msgs.append('the sibling did not finish undisturbed at time 2: %r' % (sib,))
     if not any(r[0] == 'finish' and r[1] == 'root' for r in log):
@@ -229,7 +272,7 @@ def explore_case(program, tier):
         return rep      # the fault-free run already violates: report it, do not multiply it
     pts, skipped = F.cancel_points(ctx0, bounds, victims=['v'], include_done=True)
     rep['counters']['boundaries_skipped_internal'] = skipped
-    two = tier == 'thorough' or sum(1 for op in program['roots'][0][1][0][1][0][2] if op[1].startswith('w')) == 1
+    two = tier == 'thorough' or program.get('_special') or sum(1 for op in program['roots'][0][1][0][1][0][2] if op[1].startswith('w')) == 1
     for k, v in pts:
         f1 = {'k': k, 'kind': 'cancel', 'victim': v, 'token': 'first'}
         if not two:
